@@ -117,6 +117,16 @@ class _Sched:
             self.log.append(ev)
             self.tlog.append([th.tid] + ev)
 
+    def gate(self):
+        """a switch point of a managed poll thread without an event of its own"""
+        th = self.current()
+        if th is None or th.free or self.free_all:
+            return
+        th.back.release()
+        th.go.acquire()
+        if self.free_all or th.free:
+            th.free = True
+
     def finished(self, th):
         th.done = True
         th.free = True
@@ -215,6 +225,7 @@ def run_case(case):
     from frappy.io import HasIO
     from frappy.dynamic import Pinata
     from frappy.lib.multievent import MultiEvent
+    from frappy.errors import CommunicationFailedError, HardwareError
 
     sched = _Sched(case.get('sched', []))
     decls = {d['id']: d for d in all_decls(case)}
@@ -293,13 +304,19 @@ def run_case(case):
             sched.event(['read', _id(self.name), 1])
             return 1.0
 
-        def write_x0(self, value):
-            sched.event(['write', _id(self.name), 0])
+        def _write(self, k, value):
+            sched.event(['write', _id(self.name), k])
+            for kk, kind in decl_of(self.name).get('wfail') or []:
+                if kk == k:         # fault script: this write fails (after the attempt was logged)
+                    raise {'comm': CommunicationFailedError, 'hw': HardwareError}.get(kind, RuntimeError)(
+                        'scripted write failure')
             return value
 
+        def write_x0(self, value):
+            return self._write(0, value)
+
         def write_x1(self, value):
-            sched.event(['write', _id(self.name), 1])
-            return value
+            return self._write(1, value)
 
         def doPoll(self):
             sched.event(['dopoll', _id(self.name)])
@@ -359,6 +376,7 @@ def run_case(case):
     orig_version = secnode_mod.get_version
     orig_mkthread = mb.mkthread
     orig_wait = threading.Event.wait
+    orig_set = threading.Event.set
     orig_stderr = sys.stderr
     orig_limit = sys.getrecursionlimit()
 
@@ -398,6 +416,17 @@ def run_case(case):
             return sched.main_wait(self)
         return orig_wait(self, timeout)
 
+    def my_set(self):
+        # setting the flag of the start MultiEvent is atomic with the bookkeeping of its single events as long as it
+        # happens under the lock of the MultiEvent (as in MultiEvent.set_); a poll thread that sets the flag without
+        # holding that lock can be overtaken by the main thread at this point, so it is a switch point of the scheduler
+        if isinstance(self, MultiEvent) and not sched.free_all:
+            lock = getattr(self, '_lock', None)
+            owned = getattr(lock, '_is_owned', None)
+            if not (owned is not None and owned()):
+                sched.gate()
+        return orig_set(self)
+
     srv = Server.__new__(Server)
     srv._testonly = False
     srv.name = 'node'
@@ -409,6 +438,7 @@ def run_case(case):
         secnode_mod.get_version = lambda: 'verif'
         mb.mkthread = my_mkthread
         threading.Event.wait = my_wait
+        threading.Event.set = my_set
         sys.stderr = _io.StringIO()
         srv.module_cfg = {_name(d['id']): make_cfg(d) for d in case['mods']}
         try:
@@ -431,6 +461,8 @@ def run_case(case):
         if secnode is not None:
             pop_order = [_id(n) for n in set(secnode.modules.keys())]
             if outcome in ('ready', 'timeout'):
+                with sched.lock:
+                    sched.tlog.append(['*', 'shutdown-begins'])
                 try:
                     secnode.shutdown_modules()
                 except BaseException as e:
@@ -478,6 +510,7 @@ def run_case(case):
         secnode_mod.get_version = orig_version
         mb.mkthread = orig_mkthread
         threading.Event.wait = orig_wait
+        threading.Event.set = orig_set
         sys.stderr = orig_stderr
         sys.setrecursionlimit(orig_limit)
         for cls in created:
@@ -705,8 +738,15 @@ def oracle(case, obs):
 
     # (4) configured start values are written before the first poll; ready only after the first round or a time-out
     per_thread = {}
+    before_shutdown = {}        # the same, up to the moment shutdown_modules was called
+    down = False
     for e in obs['tlog']:
+        if e[0] == '*':
+            down = True
+            continue
         per_thread.setdefault(e[0], []).append(e[1:])
+        if not down:
+            before_shutdown.setdefault(e[0], []).append(e[1:])
     polled_seen = set()
     for tid, evs in per_thread.items():
         first_poll = {}
@@ -717,6 +757,21 @@ def oracle(case, obs):
         for n, e in enumerate(evs):
             if e[0] == 'write' and e[1] in first_poll and n > first_poll[e[1]]:
                 fail('write-after-poll', f'module {e[1]}: configured value x{e[2]} written after its first poll', [e[1]])
+    # whatever happens to one write (it may fail), every configured value of a module is written (attempted) before
+    # that module is polled for the first time
+    # (stopPollThread empties the list of modules a poll thread is still working on: what a thread does after the
+    # shutdown began is not judged here)
+    for tid, evs in before_shutdown.items():
+        attempted, reported = set(), set()
+        for e in evs:
+            if e[0] == 'write':
+                attempted.add((e[1], e[2]))
+            elif e[0] in ('read', 'dopoll') and e[1] in decls and e[1] in modules and valid and e[1] not in reported:
+                missing = [k for k in decls[e[1]]['writes'] if (e[1], k) not in attempted]
+                if missing:
+                    reported.add(e[1])
+                    fail('polled-before-written', f'module {e[1]}: polled although the configured value(s) '
+                         f'{["x%d" % k for k in missing]} had not been written', [e[1]])
     if obs['outcome'] == 'ready' and not cyclic:
         written = {}
         for e in obs['tlog']:
@@ -825,6 +880,10 @@ def outcome_labels(case, obs):
         labs.add('several-poll-threads')
     if any(e[0] == 'write' for e in obs['log']):
         labs.add('configured-write')
+    wf = {(d['id'], k): kind for d in all_decls(case) for k, kind in d.get('wfail') or []}
+    for e in obs['tlog']:
+        if e[1] == 'write' and (e[2], e[3]) in wf:
+            labs.add('write-fault-' + wf[(e[2], e[3])])
     return sorted(labs)
 
 
@@ -835,7 +894,7 @@ def sample_repr(case, obs):
 # ------------------------------------------------------------------ generators
 def mk_mod(i, **kw):
     d = {'id': i, 'kind': 'plain', 'tag': 0, 'export': True, 'atts': [], 'io': None, 'poll': True, 'writes': [],
-         'fail_early': False, 'fail_init': False, 'hang': False, 'scan': []}
+         'fail_early': False, 'fail_init': False, 'hang': False, 'scan': [], 'wfail': []}
     d.update(kw)
     return d
 
@@ -909,14 +968,18 @@ def rand_case(rng):
             d['fail_early'] = rng.random() < 0.05
             d['fail_init'] = rng.random() < 0.05
         d['hang'] = rng.random() < 0.06
+        if d['writes'] and rng.random() < 0.3:
+            # fault script: one of the initial writes fails (communication failure, hardware error, programming error)
+            d['wfail'] = [[rng.choice(d['writes']), rng.choice(['comm', 'comm', 'hw', 'rt'])]]
     rng.shuffle(mods)        # declaration order is independent of everything else
     tids = all_ids + [IO_BASE + i for i in ids]
     return {'mods': mods, 'sched': rand_sched(rng, tids, rng.choice([0, 5, 15, 30, 50]))}
 
 
 def graph_cases(n, orders, rng=None, sample=None):
-    """every attachment graph on n modules (no self loops) x declaration orders; polling on, a configured write on
-    module 0; attachments read in initModule"""
+    """every attachment graph on n modules (no self loops) x declaration orders; polling on, two configured values on
+    module 0 (for every second graph the first write fails with a communication error); attachments read in
+    earlyInit or initModule"""
     pairs = [(a, b) for a in range(n) for b in range(n) if a != b]
     masks = range(1 << len(pairs))
     if sample is not None:
@@ -927,9 +990,36 @@ def graph_cases(n, orders, rng=None, sample=None):
             if mask >> k & 1:
                 atts[a].append(mk_att(b, phase='init' if (a + b) % 2 else 'early'))
         for order in orders(n, mask):
-            mods = [mk_mod(i, atts=atts[i], writes=[0] if i == 0 else [], poll=(i != 1),
+            mods = [mk_mod(i, atts=atts[i], writes=[0, 1] if i == 0 else [], poll=(i != 1),
+                           wfail=[[0, 'comm']] if i == 0 and mask % 2 else [],
                            export=not (i == 2 and mask % 3 == 0)) for i in order]
             yield {'mods': mods, 'sched': []}
+
+
+def handover_cases():
+    """two or three polled modules in declaration order 0, 1, 2; the poll thread of module 0 gets k1 steps between the
+    first and the second startModule call and k2 steps after it (its first round has 4 steps), the rest of the
+    schedule is the default one (lowest enabled thread first): the first thread finishes its first round while the
+    main thread is still registering the start events of the later modules"""
+    for n in (2, 3):
+        for k1 in range(0, 8):
+            for k2 in (0, 1, 3):
+                for variant in (0, 1):
+                    mods = [mk_mod(i) for i in range(n)]
+                    if variant:
+                        mods[1] = mk_mod(1, kind='hasio', io=['uri', 0], writes=[0])
+                    yield {'mods': mods, 'sched': ['M'] + [0] * k1 + ['M'] + [0] * k2}
+
+
+def search_cases(seed, mismatching):
+    """cases for the targeted search after a broken obligation: the cases on which model and implementation differ,
+    then one more quick budget with another seed.  (The default of the framework, a thorough budget of 45000 cases, made
+    the forked workers of the second pool inherit a parent of several GB: out of memory on a loaded machine.)"""
+    import gc
+    cases = list(mismatching) + gen_cases(seed + 7919, 'quick')
+    gc.collect()
+    gc.freeze()         # the forked workers do not touch (and so do not copy) what the parent has collected so far
+    return cases
 
 
 def gen_cases(seed, tier):
@@ -944,6 +1034,7 @@ def gen_cases(seed, tier):
         perms = list(itertools.permutations(range(k)))
         r = random.Random(mask)
         return r.sample(perms, 3)
+    cases.extend(handover_cases())
     for k in (1, 2, 3):
         cases.extend(graph_cases(k, all_orders))
     if tier != 'quick':
@@ -967,9 +1058,9 @@ def shrink(case):
             yield dict(case, mods=mods[:i] + [dict(d, atts=d['atts'][:j] + d['atts'][j + 1:])] + mods[i + 1:])
         if d.get('scan'):
             yield dict(case, mods=mods[:i] + [dict(d, scan=d['scan'][:-1])] + mods[i + 1:])
-        for key, val in (('writes', []), ('hang', False), ('fail_early', False), ('fail_init', False), ('poll', True),
-                         ('export', True)):
-            if d[key] != val and not (key == 'export' and d['kind'] == 'pinata'):
+        for key, val in (('wfail', []), ('writes', []), ('hang', False), ('fail_early', False), ('fail_init', False),
+                         ('poll', True), ('export', True)):
+            if d.get(key, val) != val and not (key == 'export' and d['kind'] == 'pinata'):
                 yield dict(case, mods=mods[:i] + [dict(d, **{key: val})] + mods[i + 1:])
         if d['kind'] == 'hasio':
             yield dict(case, mods=mods[:i] + [dict(d, kind='plain', io=None)] + mods[i + 1:])
